@@ -8,7 +8,7 @@ PROPERTY = 'C08'
 LEVEL = 'exploration'
 RULE = ('file contents of length 0..6: ALL 2^(n-1) compositions into sync DATA records x ALL sets of <=k cut positions of the resulting sync byte stream into '
         'WRTE payloads (so every 8-byte sync header is split at every offset) + the all-1-byte chunking, destinations path/BytesIO, callback none/counting/'
-        'raising, both twins, read-fragment deviations; large files (64 KiB boundaries, MiB) x record sizes x WRTE sizes; oracle: destination bytes == model '
+        'raising, both twins, read-fragment deviations; a pull following an aborted pull on the same connection; large files (64 KiB boundaries, MiB) x record sizes x WRTE sizes; oracle: destination bytes == model '
         'file, stream closed with exactly one host CLSE and every device packet consumed, callback counts sum to the size; non-trivial = file non-empty; '
         'distinct = distinct (content length, composition, cut set, destination, callback, twin, deviations)')
 ASSUMPTIONS = ['adbsim sync service (mc/adbsim.py) follows SYNC.TXT', 'file contents are seeded pseudo-random bytes; only length and chunking are enumerated']
@@ -69,6 +69,34 @@ def pull_and_judge(params, ch, cfg, data, shape):
         s.finish()
 
 
+def run_after_abort(params, ch):
+    """A pull that is aborted while sync bytes are buffered (the destination fails, or the device service dies mid-record), then an
+    ordinary pull on the same connection: it must deliver exactly its file."""
+    twin = params['twin']
+    first = content(200, 'abort')
+    second = content(params['n2'], 'second')
+    cfg = {'fs': {'files': {b'/first': {'data': first}, b'/f': {'data': second}}}, 'records': params['rec'], 'cut': {'size': params['wrte']}}
+    if params['how'] == 'die':
+        cfg['die'] = {'stream': 0, 'after': params['k']}
+    s = Session(ch, cfg, twin=twin, eps=0.001)
+    try:
+        s.op(('connect',))
+        kw = {'transport_timeout_s': 0.05, 'read_timeout_s': 0.2}
+        r1 = s.op(('pull', '/first', 'failsink:%d' % params['k'] if params['how'] == 'sink' else 'bytesio', kw))
+        r2 = s.op(('pull', '/f', 'bytesio', kw))
+        viol = []
+        if r1[0] == 'ok' and r1[1] != first:
+            viol.append({'msg': 'the first pull completed but delivered %d bytes instead of %d' % (len(r1[1]), len(first))})
+        if r2 != ('ok', second):
+            viol.append({'msg': 'pull after an aborted pull (%s) delivered %r, the device file has %d bytes: %r' % (
+                params['how'], (r2[0], len(r2[1]) if r2[0] == 'ok' else r2[1:]), len(second), r2[1][:24] if r2[0] == 'ok' else '')})
+        viol += [{'msg': '%s: %s' % i} for i in s.env.issues if i[0] in ('frame', 'overread', 'dup-id')]
+        return {'outcome': (r1[:2], r2[0]), 'viol': viol, 'nontrivial': tuple(sorted((k, str(v)) for k, v in params.items())), 'sample': dict(params, first=r1[:2], second=r2[0]),
+                'trans': len(s.env.events)}
+    finally:
+        s.finish()
+
+
 def run_big(params, ch):
     size = params['size']
     data = content(size, 'big')
@@ -97,6 +125,10 @@ def parts(tier):
     sc = [{'n': n, 'twin': t, 'dest': 'bytesio', 'cb': cb, 'kmax': 1, 'frag': True} for n in (1, 4) for t in twins for cb in (None, 'count')]
     out.append(Part('frag', sc, run_small, {'records': None, 'ncuts': None, 'cutpos': None, 'frag': 1}, split=2, what='read-fragment deviations on top of compositions and cuts',
                     bound='frag deviations <= 1, <=1 cut'))
+    sc = [{'twin': t, 'how': h, 'k': k, 'rec': rec, 'wrte': w, 'n2': n2} for t in twins for h in ('sink', 'die') for k in (0, 1, 2, 3) for rec in (7, 50, 200) for w in (5, 13, 64, 4096)
+          for n2 in (0, 9, 300)]
+    out.append(Part('pull-after-aborted-pull', sc, run_after_abort, what='an aborted pull (failing destination / device service dies mid-record) followed by an ordinary pull on the same connection',
+                    bound='%d cases' % len(sc)))
     sizes = [65535, 65536, 65537, 3 * 512 * 1024] + ([5 * 1024 * 1024] if tier == 'thorough' else [])
     sc = [{'size': z, 'rec': rc, 'wrte': w, 'twin': t, 'dest': d, 'cb': cb} for z in sizes for rc in ('max', 'one', 'mixed') for w in (1024 * 1024, 4096, 1000)
           for t in twins for (d, cb) in (('bytesio', None), ('path', 'count'))
